@@ -131,7 +131,11 @@ Lemma cova_eval_sym c ndim m i j p1 p2 : cova_eval c ndim m i j p1 p2 = cova_eva
 Proof. unfold cova_eval. rewrite (h2_sym c p1 p2). reflexivity. Qed.
 Lemma model_eval_sym cs ndim m i j p1 p2 : model_eval cs ndim m i j p1 p2 = model_eval cs ndim m i j p2 p1.
 Proof.
-  unfold model_eval. f_equal. f_equal. apply map_ext. intros [c|]; [apply cova_eval_sym|reflexivity].
+  unfold model_eval.
+  assert (E : map (fun oc => match oc with Some c => cova_eval c ndim m i j p1 p2 | None => None end) (active_covs cs m) =
+              map (fun oc => match oc with Some c => cova_eval c ndim m i j p2 p1 | None => None end) (active_covs cs m)).
+  { apply map_ext. intros [c|]; [apply cova_eval_sym|reflexivity]. }
+  rewrite E. reflexivity.
 Qed.
 
 (* the value depends on the two points only through the normalised anisotropic distance *)
